@@ -530,11 +530,26 @@ def run(ctx):
     ctx.setcov("rule", "134 functions x (default value + every single deviation [+ every pair of deviations thorough]): open list lengths 0/2/3, "
                        "each allowed alternative type, count limit and limit+1; plain python values of boundary magnitudes per dynamic leaf; the "
                        "complete catalogue relation and lookup table; non-trivial = value with at least one deviation / plain family / catalogue")
+    # thread-pair independence first (LINE events are switched off again before the enumeration)
+    from checks import pair_ops  # noqa: PLC0415
+    from mc import pairs  # noqa: PLC0415
+
+    ops = [["fn", n, p] for n, p in (("SecsS01F03", 0), ("SecsS05F01", 1), ("SecsS01F13", 0), ("SecsS02F33", 0))]
+    # (the leaf codecs are line-traced by C01/C02's own pair parts; here the layers specific to functions: catalogue, SFDL reader, containers)
+    pair_execs = pairs.run_part(ctx, ops if ctx.thorough else ops[:3], "C03", 1,
+                                prefixes=("secsgem.secs.functions", "secsgem.secs.variables.functions", "secsgem.secs.variables.sfdl_tokenizer",
+                                          "secsgem.secs.variables.dynamic", "secsgem.secs.variables.list_type", "secsgem.secs.variables.array",
+                                          "secsgem.secs.data_items"))
     ctx.run_cases(check_case, cases(ctx), "c03", chunk=16)
     ctx.setcov("functions", len(function_classes()))
 
 
 def replay(ctx, detail):
+    if isinstance(detail.get("case"), dict) and detail["case"].get("part") == "pair":
+        from mc import pairs  # noqa: PLC0415
+
+        pairs.replay_pair(ctx, detail["case"], "C03")
+        return
     res = check_case(detail["case"])
     ctx.evaluations += 1
     for sig, d in res.get("v", ()):
